@@ -516,22 +516,25 @@ Section Model.
     filter (has_value_input st) (tree_owners (S (List.length (s_nodes st))) st (CN n)).
 
   (* Node.pull = run_data_tree (through parent.run() when there is a parent -- which is itself a
-     cached node: if it ran successfully before, no child was added since, and the renamed
-     value-holding children are the same, NOTHING upstream is executed) and then the node's own run *)
+     cached node: should its remembered inputs match, NOTHING upstream is executed) and then the node's
+     own run.  run_data_tree ends (finally:) with parent._cached_inputs = None: only the upstream children
+     ran, so what the parent remembers must not pass for a run of all its children.  Hence the parent's
+     cache is always empty when a pull starts and every pull re-executes the upstream closure. *)
   Definition wf_cache_hit (st : state) (keys : list owner) : bool :=
     s_parent st && match s_wfcache st with Some k => same_set k keys | None => false end.
 
   (* run_data_tree of node n with record r: (state, did everything upstream succeed) *)
   Definition pull_upstream (st : state) (n : nat) (r : nrec) : state * bool :=
     let keys := pull_keys st n in
-    if wf_cache_hit st keys then (st, true)          (* parent.run() is a cache hit: nothing runs *)
+    if wf_cache_hit st keys then (set_cache st None, true)   (* parent.run() is a cache hit: nothing runs *)
     else
       let fuel := S (List.length (s_nodes st)) in
       let '(st1, ok) :=
         fold_left (fun (acc : state * bool) c' => if snd acc then ensure fuel (fst acc) c' else acc)
                   (operand_chans (n_in r)) (st, true) in
-      (* a successful parent.run() records the parent's inputs *)
-      (if ok && s_parent st then set_cache st1 (Some keys) else st1, ok).
+      (* a successful parent.run() records the parent's inputs (Some keys); the finally: block of
+         run_data_tree then drops them again, whatever happened *)
+      (if s_parent st then set_cache st1 None else st1, ok).
 
   Definition pull (st : state) (n : nat) : state * pres :=
     match nth_error (s_nodes st) n with
